@@ -49,8 +49,19 @@ def generate(ctx):
         labels = L.tree_labels(depth, n, rng, datetime_level=rng.random() < 0.12)
         if not labels:
             continue
-        route = rng.choice(['from_labels', 'from_labels_go', 'from_product', 'from_tree', 'from_index_items', 'set_index_hierarchy', 'level_add', 'grow'])
+        route = rng.choice(['from_labels', 'from_labels_go', 'from_product', 'from_tree', 'from_index_items', 'set_index_hierarchy', 'level_add', 'grow', 'grow_product'])
         case = {'depth': depth, 'labels': labels, 'route': route, 'sel_seed': rng.randrange(1 << 30)}
+        if route == 'grow_product':
+            pools, model0, appended = L.product_growth(depth, rng, rng.randint(1, 6))
+            steps = []
+            for t in appended:
+                if rng.random() < 0.4:
+                    steps.append(('read', rng.choice(['values', 'len', 'iter', 'depth_values', 'loc', 'contains', 'copy'])))
+                steps.append(('append', t))
+            case.update(pools=pools, start_go=rng.choice(['from_product', 'from_tree', 'from_index_items', 'init_from_static']), steps=steps,
+                        labels=model0 + appended, start=model0)
+            yield case
+            continue
         if route == 'grow':
             k = rng.randint(0, len(labels) - 1)
             steps, i = [], k
@@ -235,9 +246,24 @@ def build(case, ctx, klass):
             base = sf.IndexHierarchy.from_labels(inner)
         model = [(labels[0][0],) + tuple(t) for t in inner]
         return base.level_add(labels[0][0]), model
-    if route == 'grow':
+    if route in ('grow', 'grow_product'):
         start = case['start']
-        ih = sf.IndexHierarchyGO.from_labels(start, depth_reference=depth)
+        if route == 'grow':
+            ih = sf.IndexHierarchyGO.from_labels(start, depth_reference=depth)
+        else:
+            how = case['start_go']
+            if how == 'from_product':
+                ih = sf.IndexHierarchyGO.from_product(*case['pools'])
+            elif how == 'from_tree':
+                ih = sf.IndexHierarchyGO.from_tree(_tree_dict(start))
+            elif how == 'from_index_items' and depth == 2:
+                groups = {}
+                for t in start:
+                    groups.setdefault(t[0], []).append(t[1])
+                ih = sf.IndexHierarchyGO.from_index_items((k, sf.Index(v)) for k, v in groups.items())
+            else:
+                ih = sf.IndexHierarchyGO(sf.IndexHierarchy.from_product(*case['pools']))
+            ctx.tally('grow_start', how)
         model = list(start)
         for si, step in enumerate(case['steps']):
             op = step[0]
